@@ -395,11 +395,10 @@ class Executor:
         return ("k", "rv", rv.get("dbg", k))
 
     # ------------------------------------------------------------------ driver
-    def run(self, fn, args=None, pre_store=None, frozen=None):
+    def run(self, fn, args=None, pre_store=None, frozen=None, fid=0):
         """Enumerate paths of `fn`. Returns list[Path]."""
         st = State()
-        self._frame = 0
-        fid = 0
+        self._frame = fid
         if pre_store:
             st.store.update(pre_store)
         fr = set(frozen or ())
@@ -509,32 +508,110 @@ class Executor:
             bb = nxt
 
     def _enter_loop(self, fn, c, fid, header, st):
+        """Havoc what the loop body may change before its (arbitrary) iteration starts:
+        locals assigned in the body become loop variables; memory reachable from mutable
+        pointers handed to calls in the body (or stored through) is havocked at the
+        location those pointers denote at loop entry -- not the whole heap."""
         body = c.loop_body(header)
         assigned = set()
-        heap_w = False
+        defs = {}
         for x in body:
             b = fn.blocks[x]
             for s in b["st"]:
                 if s["k"] == "assign":
                     pl = s["p"]
-                    if "*" in pl["p"]:
-                        heap_w = True
-                    else:
+                    if "*" not in pl["p"]:
                         assigned.add(pl["l"])
+                        if not pl["p"]:
+                            defs.setdefault(pl["l"], []).append(s["rv"])
                     rv = s["rv"]
                     if rv["k"] in ("ref", "rawptr") and rv.get("mut") and "*" not in rv["p"]["p"]:
                         assigned.add(rv["p"]["l"])
             t = b["t"]
             if t["k"] == "call":
                 pl = t["d"]
-                if "*" in pl["p"]:
-                    heap_w = True
-                else:
+                if "*" not in pl["p"]:
                     assigned.add(pl["l"])
+                    if not pl["p"]:
+                        defs.setdefault(pl["l"], []).append(None)
+
+        def place_ok(pl):
+            if pl["l"] in assigned:
+                return False
+            for pr in pl["p"]:
+                if isinstance(pr, dict) and "i" in pr and pr["i"] in assigned:
+                    return False
+            return True
+
+        def resolve_ptr(local, depth=0):
+            """pointer value a (possibly loop-local) pointer temp denotes, in entry-state terms"""
+            if local not in assigned:
+                return st.read(("local", fid, local))
+            ds = defs.get(local, [])
+            if len(ds) != 1 or ds[0] is None or depth > 5:
+                return None
+            rv = ds[0]
+            if rv["k"] in ("ref", "rawptr"):
+                pl = rv["p"]
+                if place_ok(pl):
+                    return self.rvalue(st, fid, rv)
+                # reborrow `&mut (*q).proj...` of another loop-local pointer q
+                if pl["p"] and pl["p"][0] == "*" and not any(isinstance(pr, dict) and "i" in pr and pr["i"] in assigned for pr in pl["p"]):
+                    base = resolve_ptr(pl["l"], depth + 1)
+                    if base is None:
+                        return None
+                    L = deref_loc(base)
+                    for pr in pl["p"][1:]:
+                        if pr == "*":
+                            L = deref_loc(st.read(L))
+                        elif "f" in pr:
+                            L = ("field", L, pr["n"])
+                        elif "dc" in pr:
+                            L = ("downcast", L, pr["dc"] or pr["vi"])
+                        elif "i" in pr:
+                            L = ("index", L, st.read(("local", fid, pr["i"])))
+                        else:
+                            return None
+                    if L[0] == "deref":
+                        return L[1]
+                    return ("ref", canon_loc(L) if is_heap(L) else L)
+                return None
+            if rv["k"] in ("use", "cast"):
+                a = rv["a"]
+                pl = a.get("m") or a.get("c")
+                if pl is not None and not pl["p"]:
+                    return resolve_ptr(pl["l"], depth + 1)
+                if pl is not None and place_ok(pl):
+                    return self.operand(st, fid, a)
+            return None
+
+        targets = []  # pointer values (or None = unknown derived pointer)
+        for x in body:
+            b = fn.blocks[x]
+            for s in b["st"]:
+                if s["k"] == "assign" and "*" in s["p"]["p"]:
+                    pl = s["p"]
+                    i = pl["p"].index("*")
+                    if i == 0:
+                        targets.append(resolve_ptr(pl["l"]))
+                    else:
+                        targets.append(None)
+            t = b["t"]
+            if t["k"] == "call":
+                if "*" in t["d"]["p"]:
+                    targets.append(resolve_ptr(t["d"]["l"]) if t["d"]["p"][0] == "*" else None)
                 for a in t["args"]:
                     p = a.get("m") or a.get("c")
-                    if p is not None and is_mut_ptr_ty(fn.local_ty(p["l"])):
-                        heap_w = True
+                    if p is None:
+                        continue
+                    ty = self._operand_ty(fn, p)
+                    if ty is not None and is_mut_ptr_ty(ty):
+                        if not p["p"]:
+                            targets.append(resolve_ptr(p["l"]))
+                        elif place_ok(p):
+                            targets.append(self.operand(st, fid, a))
+                        else:
+                            targets.append(None)
         st.eid += 1
         ev = st.eid
         for l in sorted(assigned):
@@ -544,9 +621,27 @@ class Executor:
             for k in dead:
                 del st.store[k]
             st.store[L] = ("loopvar", header, l, init)
-        if heap_w:
-            st.havoc_heap(ev)
-            st.effects.append(("havoc", ("heap",), ev, 0))
+        unknown = False
+        seen = set()
+        for V in targets:
+            if V is None:
+                unknown = True
+                continue
+            if V in seen:
+                continue
+            seen.add(V)
+            if V[0] == "ref":
+                if V[1][0] == "local" and V[1][1] == fid and V[1][2] in assigned:
+                    continue
+                st.havoc(V[1], ev)
+                st.effects.append(("havoc", canon_loc(V[1]), ev, 0))
+            else:
+                st.havoc(("deref", V), ev)
+                st.effects.append(("havoc", ("deref", V), ev, 0))
+                if not (V and V[0] == "arg"):
+                    unknown = True
+        if unknown:
+            self._heapx(st, None, ev, 0)
         st.effects.append(("loop", header, tuple(sorted(assigned)), 0, None, fn.key))
 
     def _switch(self, fn, c, fid, bb, t, st, depth, out, cont):
